@@ -344,7 +344,9 @@ func commuteCheck(mc *modeCtx, fi *FuncInfo, s *ast.RangeStmt, key string) (item
 		env.old = st
 		env.loopOld = st
 		for _, inv := range ls.Invs {
-			st.assume(env.evalBool(inv.Expr))
+			if inv.inView(mc.prop) {
+				st.assume(env.evalBool(inv.Expr))
+			}
 		}
 	}
 	ks := x.tm.SortOf(mt.Key())
